@@ -502,6 +502,15 @@ func Families(tier string) []Family {
 				}
 			}
 			d := Def{Cfg: c, Tokens: toks, L: lim(tier, 3, 4), Disp: true}
+			if variant == 0 || variant == 3 {
+				// a program that parsed, dispatched and printed help while only its commands were declared, and again later:
+				// the required options declared since are enforced all the same
+				cl := c
+				cl.OptsLate = true
+				cl.Sets = nil
+				f.Defs = append(f.Defs, Def{Cfg: cl, Tokens: Ts("--rq=v", "--ar", "a", "s", "--help", "x"), L: 3, Disp: true,
+					Pres: [][]Tok{Ts("a"), Ts("a", "s"), {}}})
+			}
 			if variant == 2 {
 				// history: the environment satisfies the required option however often Parse runs
 				d.Pres = [][]Tok{{}, Ts("x"), Ts("a", "--ar")}
@@ -546,6 +555,7 @@ func Families(tier string) []Family {
 						continue
 					}
 					c := Cfg{Mode: 0, EnvLate: ei%2 == 1} // odd ones: the GetEnv modifier is created before the variable exists
+					c.EnvStep = ei%3 == 2                 // the variable appears only when its option is about to be declared
 					c.Nodes = []NodeCfg{rootNode(0, false)}
 					o := multi(k.kind, "o", 1, 1, 2, "al")
 					o.DefB = defb
@@ -554,6 +564,11 @@ func Families(tier string) []Family {
 					c.Opts = []OptCfg{o, other}
 					if ev != "<unset>" {
 						c.Env = []EnvCfg{{Name: T("VERIF_ENV_O"), Val: T(ev)}}
+					}
+					if c.EnvStep {
+						// a second bound option, declared later: its variable does not exist yet when the first one is read
+						c.Opts[1].Env = T("VERIF_ENV_OT")
+						c.Env = append(c.Env, EnvCfg{Name: T("VERIF_ENV_OT"), Val: T("true")})
 					}
 					if ei == 2 && !defb {
 						// the option is also marked as called by the program, before the environment is looked at
@@ -734,6 +749,13 @@ func Families(tier string) []Family {
 				c.Opts = []OptCfg{aaa, bbb, ccc, ddd, opt("bool", "verbose", 1), opt("bool", "version", 1), opt("bool", "verify", 1, "vet")} // --ver: three candidates, --ve: four
 				c = WithHelp(c, "help")
 				f.Defs = append(f.Defs, Def{Cfg: c, Tokens: toks, L: lim(tier, 3, 4), Disp: true})
+				if um == 0 {
+					// which missing option is named does not depend on what the program did with the object before
+					cl := c
+					cl.OptsLate = true
+					f.Defs = append(f.Defs, Def{Cfg: cl, Tokens: Ts("c1", "c2", "--aaa=x", "--bbb=y", "--ccc", "x"), L: 3, Disp: true,
+						Pres: [][]Tok{Ts("c1"), Ts("c2", "x")}})
+				}
 			}
 		}
 		fams = append(fams, f)
